@@ -153,7 +153,8 @@ def sample_stream(it, rnd, keep, stride_hint):
 
 ROLES_AMR = [':ARG0', ':ARG1', ':mod', ':op1', ':op2', ':op10', ':polarity',
              ':quant', ':location', ':ARG0-of', ':ARG1-of', ':location-of',
-             ':consist-of', ':Mod', ':OP1']
+             ':consist-of', ':Mod', ':OP1', ':mod-of', ':domain-of', ':domain',
+             ':consist-of-of', ':prep-on-behalf-of']
 
 
 def random_tree(rnd, maxn=6, maxd=4, roles=ROLES_AMR, concept_p=0.8,
@@ -178,7 +179,8 @@ def random_tree(rnd, maxn=6, maxd=4, roles=ROLES_AMR, concept_p=0.8,
             if k < 0.4 and d < maxd and len(vars_) < maxn:
                 bs.append((r, node(d + 1)))
             elif k < 0.6:
-                bs.append((r, rnd.choice(vars_) + al(['', '~5'])))
+                # references (also forward ones, to nodes defined later, when vars_ grows)
+                bs.append((r, rnd.choice(vars_ + [prefix + str(len(vars_))]) + al(['', '~5', '~e.1', '~v.2'])))
             else:
                 bs.append((r, rnd.choice(consts) + al(['', '~6'])))
         return (v, bs)
